@@ -33,7 +33,8 @@ def groups_for(strings, years, today, thorough, rnd, all_strings):
         m = [
             {"text": f"1 {E} 2", "cls": "FullCaseCitation", "key": key, "want": {**want, "reporter": E}, "roundtrip": True},
             {"text": f"1 {R} 2", "cls": "FullCaseCitation", "key": key, "want": want, "roundtrip": True},
-            {"text": f"Foo v. Bar, 1 {R} 2, 5 ({yin}) (holding x).", "cls": "FullCaseCitation", "key": key, "want": want},
+            {"text": f"Foo v. Bar, 1 {R} 2, 5 ({yin}) (holding x).", "cls": "FullCaseCitation", "key": key, "want": want,
+             **({"tok": "hs"} if len(groups) % 4 == 0 else {})},       # every fourth group: this member through Hyperscan
             {"text": f"See Baz v. Qux, 1 {R} 2 ({yout}).", "cls": "FullCaseCitation", "key": key, "want": want},
             {"text": f"In re Quux, 1 {R} 2, 9 (9th Cir. 1999) (en banc), cert. denied.", "cls": "FullCaseCitation", "key": key, "want": want},
             {"text": f"1 {R} 3", "cls": "FullCaseCitation", "key": f"1|3|{E}", "want": {**want, "page": "3"}},
@@ -102,7 +103,14 @@ def main(pid):
     for i in range(0, len(pool), size):
         groups.append({"label": f"examples#{i}", "members": [
             {"text": t, "cls": "FullCaseCitation", "key": "@groups"} for t in pool[i:i + size]]})
-    obs = vlib.impl_map("drv_extract", "run_equality", groups, chunks=vlib.NCPU * 2)
+    import os, shutil, time
+    hs_dir = vlib.WORK / f"hs-{os.getpid()}-{time.time_ns()}"
+    hs_dir.mkdir(parents=True)
+    env = {"VERIF_HS_CACHE": str(hs_dir)}
+    vlib.impl_run("drv_extract", "run_forms", {"items": [{"text": "1 U.S. 1", "tok": "hs"}]}, env=env)     # compile the databases once
+    obs = vlib.impl_map("drv_extract", "run_equality", groups, chunks=vlib.NCPU * 2, env=env)
+    shutil.rmtree(hs_dir, ignore_errors=True)
+    ev.cov["members_extracted_through_hyperscan"] = sum(1 for g in groups for m in g["members"] if m.get("tok"))
     fails, _ = tlc_judge("Trace_Equality", "Trace_Equality.cfg", obs, ev, "groups", chunk=1500)
     nfound = sum(1 for o in obs for row in o["rows"] if row["found"])
     skipped = sum(1 for o in obs for row in o["rows"] if not row["found"])
